@@ -24,7 +24,7 @@ SO = {"threads": 1, "time_limit": 20}
 
 FLOWCLS = W.FD + W.ERR
 KINDS = ["non_string_nodes", "cyclic_for_dag", "no_source", "no_sink", "negative_weight", "missing_weight", "non_conserving", "constraint_absent_edge",
-         "constraint_not_list", "constraint_empty", "constraint_not_tuples", "constraint_edge_as_list", "k_zero_superset", "k_negative_superset", "coverage_zero", "coverage_negative", "coverage_above_one", "coverage_nan",
+         "constraint_not_list", "constraint_entry_none", "constraint_entry_number", "constraint_mixed_node_string", "nonfinite_weight", "coverage_invalid_without_constraints", "slightly_non_conserving", "constraint_empty", "constraint_not_tuples", "constraint_edge_as_list", "k_zero_superset", "k_negative_superset", "coverage_zero", "coverage_negative", "coverage_above_one", "coverage_nan",
          "coverage_above_one_with_length", "coverage_nan_with_length", "coverage_inf_with_length", "coverage_length_zero", "coverage_length_above_one", "coverage_length_nan", "coverage_length_without_attr", "k_zero", "k_negative",
          "weight_type_str", "weight_type_complex", "weight_type_bool", "weight_type_subclass", "origin_unknown", "unknown_start", "unknown_end", "scale_above_one", "scale_negative", "ignore_malformed",
          "plr_mismatch", "plf_float", "empty_graph"]
@@ -43,6 +43,17 @@ def applicable(cls, kind, inst, meta):
         return cls in ("kFlowDecomp", "MinFlowDecomp", "MinFlowDecompCycles") and not node and "elements_to_ignore" not in kw
     if kind == "constraint_empty":
         return True
+    if kind in ("constraint_entry_none", "constraint_entry_number"):
+        return True
+    if kind == "constraint_mixed_node_string":
+        return node
+    if kind == "nonfinite_weight":
+        return not cover
+    if kind == "coverage_invalid_without_constraints":
+        return True
+    if kind == "slightly_non_conserving":
+        return cls in ("kFlowDecomp", "MinFlowDecomp", "MinFlowDecompCycles", "kFlowDecompCycles") and not node and "elements_to_ignore" not in kw and kw.get("weight_type") == "float" \
+            and not kw.get("additional_starts") and not kw.get("additional_ends")      # (flow may begin / end at declared extra start / end nodes)
     if kind.startswith("coverage_length") or kind.endswith("_with_length"):
         return not node and not cyc          # (coverage by length exists for the DAG models only)
     if kind.startswith("constraint") or kind.startswith("coverage"):
@@ -126,6 +137,57 @@ def mutate(kind, cls, inst, meta, rng):
         special = "raw_constraints"
     elif kind == "constraint_empty":
         kw[ckey] = (kw.get(ckey) or []) + [[]]
+    elif kind in ("constraint_entry_none", "constraint_entry_number"):
+        # an entry of the constraint list that is not a list at all, alone or after a well-formed constraint
+        good = [[[sp["edges"][0][0], sp["edges"][0][1]]]] if (sp["edges"] and not node and rng.random() < 0.5) else []
+        inst["_rawcons"] = good + [None if kind == "constraint_entry_none" else rng.choice([3, 3.5])]
+        kw.pop(ckey, None); kw.pop(ckey + "_coverage", None); kw.pop("subpath_constraints_coverage_length", None)
+        special = "raw_entries"
+    elif kind == "constraint_mixed_node_string":
+        # node mode: a well-formed edge-list constraint followed by a 'constraint' whose entry is a two-character string that is no node
+        ee = [e for e in sp["edges"] if len(e[0]) == 1 and len(e[1]) == 1 and (e[0] + e[1]) not in [n[0] for n in sp["nodes"]]]
+        if not ee:
+            return None
+        inst["_rawcons"] = [[[ee[0][0], ee[0][1]]], [ee[0][0] + ee[0][1]]]
+        kw.pop(ckey, None); kw.pop(ckey + "_coverage", None); kw.pop("subpath_constraints_coverage_length", None)
+        special = "mixed_node_string"
+    elif kind == "nonfinite_weight":
+        bad = rng.choice([float("nan"), float("inf")])
+        kw.pop("elements_to_ignore_percentile", None)
+        if bad == float("inf") and cls == "kFlowDecomp":
+            bad = float("nan") if rng.random() < 0.7 else bad
+        if node:
+            for n in sp["nodes"]:
+                if "flow" in n[1] and n[0] not in ign:
+                    n[1]["flow"] = bad; break
+            else:
+                return None
+        else:
+            for e in sp["edges"]:
+                if "flow" in e[2] and [e[0], e[1]] not in ign:
+                    e[2]["flow"] = bad; break
+            else:
+                return None
+        kw["weight_type"] = "float"
+    elif kind == "coverage_invalid_without_constraints":
+        kw.pop(ckey, None); kw.pop("subpath_constraints_coverage_length", None)
+        kw[ckey + "_coverage"] = rng.choice([1.5, 0, -2, float("nan")])
+    elif kind == "slightly_non_conserving":
+        # an imbalance far above float round-off (relative 5e-10 at magnitude >= 1e3) but below a relative tolerance of 1e-9
+        G = gen.build(sp)
+        inner = [v for v in G.nodes if G.in_degree(v) and G.out_degree(v)]
+        if not inner:
+            return None
+        mag = rng.choice([1e3, 1e4, 1e5])
+        for e in sp["edges"]:
+            if "flow" in e[2]:
+                e[2]["flow"] = float(e[2]["flow"]) * mag
+        v = inner[0]
+        for e in sp["edges"]:
+            if e[1] == v and e[2].get("flow", 0) > 0:
+                e[2]["flow"] = e[2]["flow"] * (1 + 7e-10); break
+        else:
+            return None
     elif kind == "constraint_not_tuples":
         special = "constraint_not_tuples"
     elif kind == "constraint_edge_as_list":
@@ -189,6 +251,13 @@ def mutate(kind, cls, inst, meta, rng):
     return inst
 
 
+def _intg(edges, w=3):
+    G_ = nx.DiGraph()
+    for u, v in edges:
+        G_.add_edge(u, v, flow=w)
+    return G_
+
+
 class _Money(float):
     """a user-defined subclass of float: not one of the two documented weight types (int, float)"""
 
@@ -222,6 +291,9 @@ def construct_special(inst):
         kw[key] = [[[sp["edges"][0][0], sp["edges"][0][1]]]]          # an edge written as a list instead of a tuple
     if special == "raw_ignore":
         pass
+    if special in ("mixed_node_string", "raw_entries"):
+        key = "subset_constraints" if inst["cls"].endswith("Cycles") else "subpath_constraints"
+        kw[key] = [([tuple(e) if isinstance(e, list) else e for e in c] if isinstance(c, list) else c) for c in inst["_rawcons"]]
     if kw.get("weight_type") == "str":
         kw["weight_type"] = str
     if kw.get("weight_type") == "complex":
@@ -260,7 +332,7 @@ def gen_cases(tier, seed):
         for i in range(per * 7):
             cases.append({"kind": "converse", "cls": cls, "rs": f"C19c:{seed}:{cls}:{i}"})
     for i in range(per * 6):
-        cases.append({"kind": "aux", "rs": f"C19a:{seed}:{i}", "which": i % 12})
+        cases.append({"kind": "aux", "rs": f"C19a:{seed}:{i}", "which": i % 15})
     for cls in ("kFlowDecomp", "MinFlowDecomp", "MinFlowDecompCycles"):
         for i in range(per * 3):
             cases.append({"kind": "history", "cls": cls, "rs": f"C19h:{seed}:{cls}:{i}"})
@@ -459,6 +531,9 @@ def run_case(case):
         ("NumPathsOptimization/k-in-kwargs", lambda: fp.NumPathsOptimization(model_type=fp.kMinPathError, stop_on_first_feasible=True, G=G, flow_attr="flow", k=2)),
         ("NodeExpandedDiGraph/non-string-nodes", lambda: fp.NodeExpandedDiGraph(nx.DiGraph([(1, 2)]), node_flow_attr="flow")),
         ("NodeExpandedDiGraph/empty", lambda: fp.NodeExpandedDiGraph(nx.DiGraph(), node_flow_attr="flow")),
+        ("MinErrorFlow/non-string-nodes/acyclic", lambda: fp.MinErrorFlow(_intg([(0, 1), (1, 2), (2, 3)]), flow_attr="flow", solver_options=dict(SO))),
+        ("MinErrorFlow/non-string-nodes/cyclic", lambda: fp.MinErrorFlow(_intg([(0, 1), (1, 2), (2, 1), (2, 3)]), flow_attr="flow", solver_options=dict(SO))),
+        ("MinErrorFlow/non-string-nodes/tuple-node-cyclic", lambda: fp.MinErrorFlow(_intg([(("a", 1), ("a", 1))]), flow_attr="flow", solver_options=dict(SO))),
         ("stDAG/unknown-start", lambda: fp.stDAG(G, additional_starts=["zz"])),
         ("stDiGraph/no-source", lambda: fp.stDiGraph(nx.DiGraph([("a", "b"), ("b", "a")]))),
         ("SolverWrapper/unknown-solver", lambda: __import__("flowpaths.utils.solverwrapper", fromlist=["x"]).SolverWrapper(external_solver="cplex")),
